@@ -1,6 +1,7 @@
 From Coq Require Import ZArith Lia.
 From RsdnsModel Require Import Base GenHeader Cursor Names Labels Header Tracker RData Reader RecordSet.
-From RsdnsModel.Proofs Require Import Gates.
+From RsdnsModel.Spec Require Import LinearPass.
+From RsdnsModel.Proofs Require Import Gates ReaderRefine FromMsgRefine.
 From RsdnsModel.Properties Require Import C07.
 Open Scope N_scope.
 Check (C07_gates_sound : forall msg ty rs,
@@ -17,4 +18,11 @@ Check (C07_gate_errors : forall msg ty hd c1,
    from_msg msg ty = Err (BadQuestionsCount (h_qd hd)))).
 Check (C07_extended_rcode : forall base ext, base < 16 -> ext < 256 ->
   rcode_extended base ext = base + 16 * ext).
-Print Assumptions C07_gates_sound. Print Assumptions C07_gate_errors. Print Assumptions C07_extended_rcode.
+Check (C07_rcode_gate : forall msg nq an ns ar qs rs e1 e2,
+  parsed msg nq an ns ar qs rs e1 e2 -> lenN qs = nq -> lenN rs = an + ns + ar ->
+  forall h, read_header msg (c_new msg) = (c_set_pos (c_new msg) 12, Ok h) ->
+  h_qd h = nq /\ h_an h = an /\ h_ns h = ns /\ h_ar h = ar ->
+  forall ty q, nq = 1 -> getN qs 0 = Some q -> flag_qr (h_flags h) = true -> flag_tc (h_flags h) = false ->
+  (the_rcode an ns ar rs h <> 0 -> from_msg msg ty = Err (BadResponseCode (the_rcode an ns ar rs h))) /\
+  (forall s, from_msg msg ty = Ok s -> the_rcode an ns ar rs h = 0)).
+Print Assumptions C07_gates_sound. Print Assumptions C07_gate_errors. Print Assumptions C07_extended_rcode. Print Assumptions C07_rcode_gate.
